@@ -282,6 +282,11 @@ type Result struct {
 	Walks    int
 	Scans    int
 	Stales   int // stale-cursor operations that returned true
+	// WalkAlarms: the structural walk of the repository flagged something (by class). A walk alarm is
+	// never a verdict: it is re-judged through the public cursor API (forward and backward scan).
+	WalkAlarms map[string]int
+	// NotPublic: walk alarms for which both public scans still matched the model (internal-only anomaly).
+	NotPublic int
 }
 
 // NonTrivial: at least one split / child creation or node removal happened. For the shipped variant
@@ -337,6 +342,9 @@ type exec struct {
 	callSite    string // site override while judging a specific call
 	lastShape   string // shape seen by the most recent walk ("unknown" when a later op ran without one)
 	shapeBefore string
+	// set while a walk alarm is being re-judged through the public API (recorded in failure details)
+	walkAlarm    string
+	walkProblems []Problem
 }
 
 func (e *exec) fail(outcome string, detail map[string]any) *Failure {
@@ -355,6 +363,12 @@ func (e *exec) fail(outcome string, detail map[string]any) *Failure {
 	}
 	if e.treeBefore != "" {
 		detail["tree_before_op"] = e.treeBefore
+	}
+	if e.walkAlarm != "" {
+		detail["repository_walk_flagged_first"] = e.walkAlarm
+		if len(e.walkProblems) > 0 {
+			detail["repository_walk_problems"] = e.walkProblems
+		}
 	}
 	site := e.callSite
 	if site == "" {
@@ -470,9 +484,9 @@ func (e *exec) scanAPI(backward bool) ([]Obs, *Failure) {
 	defer func() { e.scanBuf = out[:0] }()
 	var ok bool
 	var err error
-	name := "First/Next"
+	name, via := "First/Next", "scan-forward"
 	if backward {
-		name = "Last/Previous"
+		name, via = "Last/Previous", "scan-backward"
 		ok, err = e.s.Last()
 	} else {
 		ok, err = e.s.First()
@@ -490,6 +504,12 @@ func (e *exec) scanAPI(backward bool) ([]Obs, *Failure) {
 		o, cerr := e.s.Cur()
 		if cerr != nil {
 			return nil, e.fail("unexpected-error", map[string]any{"call": name + " -> GetCurrentValue", "error": cerr.Error()})
+		}
+		if o.ID.IsNil() {
+			// the positioning call returned true but the cursor stands on a slot that holds no item
+			// (GetCurrentKey returns the zero item with a nil id): a phantom element of the collection.
+			// Decided here, before the order/content comparison, so that it keeps its own outcome class.
+			return nil, e.fail(via+"-yields-empty-item", map[string]any{"scan": name, "items_before_it": fmtObs(out), "empty_item_at_index": len(out)})
 		}
 		out = append(out, o)
 		if backward {
@@ -617,27 +637,58 @@ func (e *exec) settle(pd *pending, obs []Obs, via string, descending bool) *Fail
 	return nil
 }
 
-// content observes the store content for settling: structural walk when the repository is ours
-// (cursor untouched), else a forward scan through the public API.
+// content observes the store content for settling. When the repository is ours the structural walk
+// is the fast observation (cursor untouched). C17 is a statement about what the public API returns,
+// so a walk that flags something (structural problem or content that differs from the model) is NOT a
+// verdict: it is counted, and the same question is put to the public cursor API (First/Next and
+// Last/Previous scans, each item read through GetCurrentKey/GetCurrentValue). Only a divergence seen
+// there is a failure. The trigger is a pure function of the program, so runs stay deterministic.
 func (e *exec) content(pd *pending) *Failure {
 	if e.s.Owned() {
 		obs, problems := e.s.Walk()
 		e.res.Walks++
+		alarm := ""
 		if len(problems) > 0 {
-			return e.fail("structure-"+problems[0].Class, map[string]any{"problems": problems})
+			alarm = "structure-" + problems[0].Class
+		} else {
+			save := *pd
+			f := e.settle(pd, obs, "walk", false)
+			if f == nil {
+				e.lastShape = e.s.Shape()
+				return nil
+			}
+			*pd = save // settle changes nothing when it fails
+			alarm = f.Sig[strings.LastIndex(f.Sig, ":")+1:]
 		}
-		f := e.settle(pd, obs, "walk", false)
-		if f == nil {
-			e.lastShape = e.s.Shape()
+		if e.res.WalkAlarms == nil {
+			e.res.WalkAlarms = map[string]int{}
 		}
-		return f
+		e.res.WalkAlarms[alarm]++
+		e.walkAlarm, e.walkProblems = alarm, problems
+		defer func() { e.walkAlarm, e.walkProblems = "", nil }()
 	}
 	obs, f := e.scanAPI(false)
 	if f != nil {
 		return f
 	}
 	e.res.Scans++
-	return e.settle(pd, obs, "scan-forward", false)
+	if f := e.settle(pd, obs, "scan-forward", false); f != nil {
+		return f
+	}
+	if e.s.Owned() {
+		// reached only after a walk alarm: the backward direction must agree as well
+		bwd, f := e.scanAPI(true)
+		if f != nil {
+			return f
+		}
+		e.res.Scans++
+		if f := e.settle(pd, bwd, "scan-backward", true); f != nil {
+			return f
+		}
+		e.res.NotPublic++
+		e.lastShape = e.s.Shape()
+	}
+	return nil
 }
 
 func (e *exec) learnIDs() *Failure {
